@@ -74,10 +74,12 @@ Definition C04_fages_statement (tau_star : program -> theory) : Prop :=
     (forall p d, T p d -> In (mkpred p (List.length d)) (program_preds P) \/ In (mkpred p (List.length d)) ins) ->
     ((forall f, In f D -> cvalid FI T f) <-> stable T P (input_facts T ins)).
 
-(* PARTIAL: proved for every theory G that represents P rule by rule ([represents]: each formula is
+(* The statement over ANY theory G that represents P rule by rule ([represents]: each formula is
    the constraint / definition of the corresponding rule, its body true at V := d exactly when a
-   ground instance of the rule supports p(d); same vocabulary).  The missing bridge is the lemma
-   "forall FI P, represents FI (tau_star P) P" about the tau* model. *)
+   ground instance of the rule supports p(d); same vocabulary).  The bridge
+   "tau_star P = Some G -> represents FI G P" about the tau* model is PROVED
+   (Properties/C04full.v: C04_tau_star_represents), which closes C04_fages there; the name
+   _partial is historical. *)
 Theorem C04_fages_partial :
   forall (P : program) (G : theory) (ins : list pred) (D : theory) (FI : fint) (T : pint),
   represents FI G P ->
